@@ -101,6 +101,11 @@ func (xaManager *XAResourceManager) xaTwoPhaseTimeoutChecker() {
 						return true
 					}
 
+					// only a connection that has prepared a branch waits for its second phase
+					if connectionXA.prepareTime.IsZero() {
+						return true
+					}
+
 					if time.Now().Sub(connectionXA.prepareTime) > xaManager.config.TwoPhaseHoldTime {
 						if err := connectionXA.CloseForce(); err != nil {
 							log.Errorf("Force close the xa xid:%s physical connection fail", connectionXA.txCtx.XID)
